@@ -81,16 +81,26 @@ class Report:
             return list(configs)
         return [c for c in configs if c in self.only_configs]
 
+    def floors(self):
+        for r in self.rules:
+            if len(r.instances) < r.floor:
+                r.violation("FLOOR", "", "rule matched %d instances, floor (counted by hand) is %d: the rule "
+                            "no longer sees the code it was written for" % (len(r.instances), r.floor))
+
+    def new_violations(self):
+        """(rule, key) of the violations that are not listed known findings (floors applied)."""
+        self.floors()
+        known = load_known()
+        return [(r, k) for r in self.rules for (k, w, m) in r.violations if (self.prop, k) not in known]
+
     def finish(self):
         known = load_known()
         wall = time.time() - self.t0
         lines = []
         new_viol = []
         known_hit = []
+        self.floors()
         for r in self.rules:
-            if len(r.instances) < r.floor:
-                r.violation("FLOOR", "", "rule matched %d instances, floor (counted by hand) is %d: the rule "
-                            "no longer sees the code it was written for" % (len(r.instances), r.floor))
             for (k, where, msg) in r.violations:
                 if (self.prop, k) in known:
                     known_hit.append((k, where, msg, known[(self.prop, k)]))
